@@ -90,7 +90,7 @@ def end_to_end(ctx, res, pred, nfonts, ntexts, shipped_words):
     try:
         fonts, metas, lines, info = [], [], [], []
         for i in range(nfonts):
-            data, desc = fontsynth.gen_font(r)
+            data, desc = fontsynth.gen_font(r, rtl=bool(i % 2))        # every other font: reverse-direction passes and bidi-class-16 glyphs
             p = tmp / ("f%d.ttf" % i)
             p.write_bytes(data)
             fonts.append(str(p))
